@@ -1,9 +1,32 @@
 SPEC = {
     "claimed": False,
     "gen": [],
-    "theorems": ["C12_exactly_once_refuted", "C12_chunks_total_refuted"],
+    "theorems": ["C12_chunks", "C12_exactly_once", "C12_every_answer", "C12_incomplete_never_delivers",
+                 "C12_at_most_once", "C12_old_ticks_harmless", "C12_newer_replaces", "C12_no_panic",
+                 "C12_nonvacuous"],
     "allowed_axioms": [],
     "extract": {"LibTw2.Model.Receiver": ["delta_chunks", "recv_step", "new_receiver", "reset"]},
-    "components": [{"bin": "receiver", "driver": "drv_receiver"}],
+    "components": [{"bin": "receiver", "driver": "drv_receiver",
+                    "timeout": {"quick": 600, "thorough": 3000}}],
     "release": False,
+    "rule": "see components.receiver.rule",
+    "trusted_base": [
+        "Model/Receiver.v is hand-written from snapshot/src/receiver.rs (DeltaReceiver), "
+        "snapshot/src/snap.rs (delta_chunks, DeltaChunks::next) and gamenet/snap/src/lib.rs (Snap, SnapSingle, "
+        "SnapEmpty, MAX_SNAPSHOT_PACKSIZE); VecMap<Range<u32>> is a key-sorted association list, Vec<u8> a list, "
+        "lengths and offsets are Z; the delta data is opaque bytes",
+        "the harness compares data longer than 24 bytes by length + FNV-1a-32 fingerprint (the oracle on the "
+        "real code compares the full bytes)"],
+    "assumptions": [
+        "the receiver is in a state no call can panic from (wf: reachable from DeltaReceiver::new() by messages "
+        "whose data field is at most 2^26 bytes, theorem C12_no_panic) and has not yet accepted the tick of the "
+        "transfer (before)",
+        "messages interleaved with the transfer are of strictly older ticks (C12_exactly_once); for arbitrary "
+        "interleaving, including newer ticks and hostile messages, C12_at_most_once and C12_newer_replaces hold "
+        "without that assumption",
+        "base tick is an i32 (tick and crc are unconstrained); data length <= 32*900",
+        "reset() is not called during the transfer"],
+    "explanation": "theorems are by induction over the schedule (list of part numbers and foreign messages), for "
+                   "every data length <= 28800, every order, every duplication pattern; the model is tied to the "
+                   "Rust code by running both on the same schedules, message by message",
 }
